@@ -406,7 +406,7 @@ pub fn run_in_child(ctx: &Ctx, text: &str) -> CaseResult {
 pub fn check(ctx: &Ctx) -> i32 {
     let start = Instant::now();
     let mut ev = Evidence::default();
-    ev.rule = "inputs: token-level mutations (insert/delete/replace/swap from the lexer's vocabulary including combined tokens and oversized numbers), byte-level mutations, extreme literals, nesting up to depth 130 (quick) / 260 (thorough) of five nesting forms, entry-point variations (no main, 0..7 parameters, non-integer parameters/result), and unmodified generated programs; oracle: parse_module and Program::check return Ok or Err (no panic); accepted programs with a valid entry point pass fun2core, focusing, shrinking, linearization and all three code generators without a panic other than the two documented capacity assertions (and the RISC-V backend's documented `print` limitation). Non-trivial: the input parses (reaches the type checker); distinct by hash of the text. Second domain (declaration stress): generated polymorphic data/codata declarations whose fields mention the declared types at arbitrary type arguments up to depth 3 (non-regular and mutually recursive instantiation), used by a small program; each text is compiled in a child process on a 2 MB stack (the default thread stack, on which the repository's own tests run) under a 6 GB address-space cap, and a process that dies (signal, abort, stack exhaustion on an input of a few hundred bytes) is a violation, a time-out or an exhausted memory budget is inconclusive (counted as discarded). Third domain (binary): byte strings that a text-level harness cannot express (invalid UTF-8, NUL bytes, byte-order mark, CR LF, multi-byte characters, also truncated) around mutated programs are given as files to the real `scc check` and, when accepted with a valid entry point, to `scc codegen x86-64|rv64`; the exit status must be 0 or 1 (a panic exits with 101, an abort by signal). thorough additionally replays the corpus of the libFuzzer target (fuzz/).".into();
+    ev.rule = "inputs: token-level mutations (insert/delete/replace/swap from the lexer's vocabulary including combined tokens and oversized numbers), byte-level mutations, extreme literals, nesting up to depth 130 (quick) / 260 (thorough) of five nesting forms, entry-point variations (no main, 0..7 parameters, non-integer parameters/result), and unmodified generated programs; oracle: parse_module and Program::check return Ok or Err (no panic); accepted programs with a valid entry point pass fun2core, focusing, shrinking, linearization and all three code generators without a panic other than the two documented capacity assertions (and the RISC-V backend's documented `print` limitation). Non-trivial: the input parses (reaches the type checker); distinct by hash of the text. Second domain (declaration stress): generated polymorphic data/codata declarations whose fields mention the declared types at arbitrary type arguments up to depth 3 (non-regular and mutually recursive instantiation), used by a small program; each text is compiled in a child process on a 2 MB stack (the default thread stack, on which the repository's own tests run) under a 6 GB address-space cap, and a process that dies (signal, abort, stack exhaustion on an input of a few hundred bytes) is a violation, a time-out or an exhausted memory budget is inconclusive (counted as discarded). Third domain (binary): byte strings that a text-level harness cannot express (invalid UTF-8, NUL bytes, byte-order mark, CR LF, multi-byte characters, also truncated) around mutated programs are given as files (under ordinary names and names without extension, with several dots, blanks, non-ASCII and non-UTF-8 bytes) to the real `scc check` and, when accepted with a valid entry point, to `scc codegen x86-64|rv64`; the exit status must be 0 or 1 (a panic exits with 101, an abort by signal). thorough additionally replays the corpus of the libFuzzer target (fuzz/).".into();
     ev.assumptions = vec!["recursion depth of the front end is bounded by the nesting depth generated (stack exhaustion is outside the property's 'within stack limits')".into()];
     let mut report = Report { violations: vec![], infra_errors: vec![] };
     for k in ctx.known.iter().filter(|k| k.property == "C18" && k.status == "known") {
@@ -450,20 +450,24 @@ pub fn check(ctx: &Ctx) -> i32 {
                     files.sort();
                     for f in files {
                         let Ok(input) = std::fs::read(&f) else { continue };
-                        let r = super::cli::c18_cli_case(ctx, &exe, &input, "cli: saved input");
-                        if let CaseResult::Fail(fl) = &r {
-                            if report.violations.is_empty() {
-                                eprintln!("{}: {}", f.display(), fl.summary);
-                                report.violations.push(write_replay_with(ctx, "clifile", &[], fl, json!({"file": f.display().to_string()})));
+                        // under an ordinary name and under a name that is not valid UTF-8
+                        for name_kind in [0usize, 5] {
+                            let r = super::cli::c18_cli_case_named(ctx, &exe, &input, "cli: saved input", name_kind);
+                            if let CaseResult::Fail(fl) = &r {
+                                if report.violations.is_empty() {
+                                    eprintln!("{}: {}", f.display(), fl.summary);
+                                    report.violations.push(write_replay_with(ctx, "clifile", &[], fl, json!({"file": f.display().to_string(), "name_kind": name_kind})));
+                                }
                             }
+                            ev.absorb(&r);
                         }
-                        ev.absorb(&r);
                     }
                 }
                 let n3 = ctx.tier.pick(400, 20000);
                 let run3 = |b: &[u8]| {
                     let (input, kind) = super::cli::byte_input(ctx, b);
-                    super::cli::c18_cli_case(ctx, &exe, &input, kind)
+                    let name_kind = b.last().copied().unwrap_or(0) as usize % 8;
+                    super::cli::c18_cli_case_named(ctx, &exe, &input, kind, name_kind)
                 };
                 let out3 = drive(&mut ev, ctx.seed, 2018, n3, 60, 1200, 40, &run3);
                 if let Some((bytes, f)) = out3.failure {
@@ -539,12 +543,13 @@ pub fn replay(ctx: &Ctx, sub: &str, bytes: &[u8], case: &serde_json::Value) -> C
     if sub.starts_with("clifile") {
         let Some(exe) = super::cli::scc_exe(ctx) else { return CaseResult::Discard("infra: scc binary not built".into()) };
         let input = std::fs::read(case["file"].as_str().unwrap_or("")).unwrap_or_default();
-        return super::cli::c18_cli_case(ctx, &exe, &input, "cli: saved input");
+        return super::cli::c18_cli_case_named(ctx, &exe, &input, "cli: saved input", case["name_kind"].as_u64().unwrap_or(0) as usize);
     }
     if sub.starts_with("cli") {
         let Some(exe) = super::cli::scc_exe(ctx) else { return CaseResult::Discard("infra: scc binary not built".into()) };
         let (input, kind) = super::cli::byte_input(ctx, bytes);
-        return super::cli::c18_cli_case(ctx, &exe, &input, kind);
+        let name_kind = bytes.last().copied().unwrap_or(0) as usize % 8;
+        return super::cli::c18_cli_case_named(ctx, &exe, &input, kind, name_kind);
     }
     if sub.starts_with("decls") {
         return run_in_child(ctx, &decl_stress(bytes));
